@@ -6,6 +6,7 @@ import (
 	"bytes"
 	"errors"
 	"os"
+	"sync"
 
 	bolt "go.etcd.io/bbolt"
 
@@ -30,6 +31,42 @@ type Model struct {
 	// fault injection: the next Update fails (returns an error without applying anything)
 	FailUpdate func() bool
 	OnCommit   func()
+	// Concurrent: explicit transactions behave as bbolt's do under concurrent callers: one writable transaction per
+	// database at a time (Begin(true) blocks), and a read-only transaction sees the state committed when it began
+	// (a private copy), never the uncommitted writes of a concurrent writer.
+	Concurrent bool
+	wmu        map[*bolt.Bucket]*sync.Mutex
+	writer     map[*bolt.Bucket]*txState
+	view       map[*bolt.Tx]*bolt.Bucket
+}
+
+// freshCopy returns a private copy (new bucket identities) of the committed content of b: if a writable
+// transaction w is open, the content saved when w began.
+func (m *Model) freshCopy(b *bolt.Bucket, w *txState) *bolt.Bucket {
+	src := m.Bkts[b]
+	if w != nil && !w.done {
+		if s, ok := w.saved[b]; ok {
+			src = s
+		}
+	}
+	nb := m.NewBucket()
+	c := m.Bkts[nb]
+	for i := range src.Keys {
+		sub := src.Subs[i]
+		if sub != nil {
+			sub = m.freshCopy(sub, w)
+		}
+		c.Keys, c.Vals, c.Subs = append(c.Keys, src.Keys[i]), append(c.Vals, src.Vals[i]), append(c.Subs, sub)
+	}
+	return nb
+}
+
+func (m *Model) endWriter(st *txState) {
+	if m.Concurrent && st.writable {
+		root := m.Roots[st.db]
+		delete(m.writer, root)
+		m.wmu[root].Unlock()
+	}
 }
 
 type txState struct {
@@ -110,7 +147,8 @@ func (m *Model) clone(b *bolt.Bucket, into map[*bolt.Bucket]*Bkt) {
 
 func Install() *Model {
 	m := &Model{Bkts: map[*bolt.Bucket]*Bkt{}, Roots: map[*bolt.DB]*bolt.Bucket{}, Closed: map[*bolt.DB]bool{}, txDB: map[*bolt.Tx]*bolt.DB{},
-		Files: map[string]*bolt.Bucket{}, Seqs: map[*bolt.Bucket]uint64{}, txs: map[*bolt.Tx]*txState{}, curs: map[*bolt.Cursor]*bolt.Bucket{}}
+		Files: map[string]*bolt.Bucket{}, Seqs: map[*bolt.Bucket]uint64{}, txs: map[*bolt.Tx]*txState{}, curs: map[*bolt.Cursor]*bolt.Bucket{},
+		wmu: map[*bolt.Bucket]*sync.Mutex{}, writer: map[*bolt.Bucket]*txState{}, view: map[*bolt.Tx]*bolt.Bucket{}}
 	M = m
 	put := func(b *bolt.Bucket, k, v []byte) error {
 		bk := m.Bkts[b]
@@ -197,7 +235,12 @@ func Install() *Model {
 		}
 		return nil
 	})
-	vr.Replace("(*go.etcd.io/bbolt.Tx).Bucket", func(tx *bolt.Tx, k []byte) *bolt.Bucket { return getSub(m.Roots[m.txDB[tx]], k) })
+	vr.Replace("(*go.etcd.io/bbolt.Tx).Bucket", func(tx *bolt.Tx, k []byte) *bolt.Bucket {
+		if v := m.view[tx]; v != nil {
+			return getSub(v, k)
+		}
+		return getSub(m.Roots[m.txDB[tx]], k)
+	})
 	vr.Replace("(*go.etcd.io/bbolt.Tx).CreateBucketIfNotExists", func(tx *bolt.Tx, k []byte) (*bolt.Bucket, error) {
 		return createSub(m.Roots[m.txDB[tx]], k, true)
 	})
@@ -254,9 +297,23 @@ func Install() *Model {
 		if m.Closed[db] {
 			return nil, errors.New("database not open")
 		}
+		if m.Concurrent && writable {
+			root := m.Roots[db]
+			if m.wmu[root] == nil {
+				m.wmu[root] = new(sync.Mutex)
+			}
+			m.wmu[root].Lock()
+		}
 		tx := &bolt.Tx{}
 		m.txDB[tx] = db
 		st := &txState{db: db, writable: writable}
+		if m.Concurrent {
+			if writable {
+				m.writer[m.Roots[db]] = st
+			} else {
+				m.view[tx] = m.freshCopy(m.Roots[db], m.writer[m.Roots[db]])
+			}
+		}
 		if writable {
 			st.saved = map[*bolt.Bucket]*Bkt{}
 			m.clone(m.Roots[db], st.saved)
@@ -280,6 +337,7 @@ func Install() *Model {
 			}
 			m.Seqs = st.savedSeq
 		}
+		m.endWriter(st)
 		return nil
 	}
 	vr.Replace("(*go.etcd.io/bbolt.Tx).Rollback", rollback)
@@ -299,6 +357,7 @@ func Install() *Model {
 			m.OnCommit() // crash tick: dying here leaves the transaction uncommitted
 		}
 		st.done = true
+		m.endWriter(st)
 		return nil
 	})
 	vr.Replace("(*go.etcd.io/bbolt.Tx).Writable", func(tx *bolt.Tx) bool { return m.txs[tx] != nil && m.txs[tx].writable })
